@@ -49,7 +49,8 @@ Seeds == <<[entry |-> "program", toks |-> ProgSeed1], [entry |-> "program", toks
 \* ---- lexicon -------------------------------------------------------------------------------
 Lexicon ==
   <<"fn", "let", "match", "type", "mod", "const", "witness", "param", "main", "{", "}", "(", ")", "[", "]", "<", ">", ",", ";", ":", "=", "=>", "->",
-    "_", "0", "1", "255", "256", <<"0x", "_">>, <<"0b", "_">>, <<"0x", "0">>, <<"0b", "2">>, <<"1", "_">>, <<"_", "_", "1">>,
+    "_", "0", "1", "255", "256", <<"0x", "_">>, <<"0b", "_">>, <<"0x", "0">>, <<"0b", "2">>, <<"0x", "a", "b", "c">>,
+    <<"0x", "1", "2", "3", "4", "5">>, <<"0b", "1", "0", "1">>, <<"0", "0", "7">>, <<"0", "2", "5", "5">>, <<"1", "_">>, <<"_", "_", "1">>,
     [i \in 1..80 |-> "9"], "true", "false", "None", "Some(", "Left(", "Right(", "list![", "Either<", "Option<", "List<",
     <<"u", "8">>, <<"u", "3">>, "bool", "Pubkey", <<"witness::", "W">>, <<"param::", "P">>, <<"jet::", "eq_8">>, <<"jet::", "nope">>, "unwrap",
     <<"unwrap_left::<">>, "is_none::<", "assert!", "panic!", "dbg!", ">::into", "fold::<", "for_while::<", "x", "a", "step",
